@@ -59,6 +59,46 @@ def Mgr.inherit {ν : Type} (bases : List (Mgr ν)) : Mgr ν :=
 def regsFor {ν : Type} [DecidableEq ν] (regs : List (ν × H)) (e : ν) : List H :=
   (regs.filter (fun r => r.1 = e)).map (·.2)
 
+/-! ### removal: `oset.discard`, `EventManager.del_listener` -/
+
+/-- `oset.discard` (and `MutableSet.remove` when the key is present): unlink the key -/
+def osetDiscard (s : List H) (h : H) : List H := s.filter (fun x => x != h)
+
+/-- `EventManager.del_listener(event_name, handler)`: `self.handlers[event_name].remove(handler)`.
+    When the handler is not registered Python raises KeyError (`delRaises`) and nothing changes. -/
+def Mgr.delListener {ν : Type} [DecidableEq ν] (m : Mgr ν) (e : ν) (h : H) : Mgr ν :=
+  fun e' => if e' = e then osetDiscard (m e) h else m e'
+
+def Mgr.delRaises {ν : Type} (m : Mgr ν) (e : ν) (h : H) : Bool := !(m e).contains h
+
+/-- `EventManager.del_listener(event_name)`: `del self.handlers[event_name]` -/
+def Mgr.clear {ν : Type} [DecidableEq ν] (m : Mgr ν) (e : ν) : Mgr ν :=
+  fun e' => if e' = e then [] else m e'
+
+/-- one step of a registration history -/
+inductive Op (ν : Type) where
+  | add (e : ν) (h : H)
+  | del (e : ν) (h : H)
+  | clear (e : ν)
+  deriving Repr
+
+def Mgr.applyOp {ν : Type} [DecidableEq ν] (m : Mgr ν) : Op ν → Mgr ν
+  | .add e h => m.addListener e h
+  | .del e h => m.delListener e h
+  | .clear e => m.clear e
+
+/-- a history of add_listener / del_listener calls on a manager -/
+def Mgr.applyAll {ν : Type} [DecidableEq ν] (m : Mgr ν) (ops : List (Op ν)) : Mgr ν := ops.foldl Mgr.applyOp m
+
+/-- specification: the net registrations for `e` after a history that starts from the registrations
+    `init`: an add appends (repetitions kept), a removal cancels every earlier registration of that
+    listener, a clear cancels all of them -/
+def netRegs {ν : Type} [DecidableEq ν] (e : ν) : List H → List (Op ν) → List H
+  | acc, [] => acc
+  | acc, .add e' h :: ops => netRegs e (if e' = e then acc ++ [h] else acc) ops
+  | acc, .del e' h :: ops => netRegs e (if e' = e then acc.filter (fun x => x != h) else acc) ops
+  | acc, .clear e' :: ops => netRegs e (if e' = e then [] else acc) ops
+
 /-- `EventManager.fire_event(event_name, ...)`: the handlers that are called, in order, when none
     of them raises -/
 def Mgr.fire {ν : Type} (m : Mgr ν) (e : ν) : List H := m e
